@@ -405,7 +405,7 @@ func runParent(id, tier string, only *Shard) int {
 	for i := range shards {
 		wg.Add(1)
 		sem <- struct{}{}
-		go func(sh Shard) {
+		go func(sh Shard, idx int) {
 			defer wg.Done()
 			defer func() { <-sem }()
 			js, _ := json.Marshal(sh)
@@ -417,7 +417,15 @@ func runParent(id, tier string, only *Shard) int {
 			ctx, cancel := context.WithTimeout(context.Background(), limit)
 			defer cancel()
 			cmd := exec.CommandContext(ctx, exe, "worker", id, string(js))
-			cmd.Env = append(os.Environ(), "GOMAXPROCS=2")
+			// the process time zone is part of the environment the harness owns: it rotates over the shards (UTC, the
+			// library's home zone with its 1986-1991 daylight-saving years, a zone with yearly clock changes, a zone
+			// east of the date line). Nothing the library answers may depend on it; reference models and the merged
+			// dependence tables would show a difference. (C10 reads the clock's year: kept in UTC.)
+			tz := []string{"UTC", "Asia/Shanghai", "America/New_York", "Pacific/Auckland"}[idx%4]
+			if id == "C10" {
+				tz = "UTC"
+			}
+			cmd.Env = append(os.Environ(), "GOMAXPROCS=2", "TZ="+tz)
 			cmd.Stderr = os.Stderr
 			out, err := cmd.Output()
 			mu.Lock()
@@ -437,7 +445,7 @@ func runParent(id, tier string, only *Shard) int {
 				return
 			}
 			merge(total, &res)
-		}(shards[i])
+		}(shards[i], i)
 	}
 	wg.Wait()
 	if failed != "" {
